@@ -241,6 +241,7 @@ def run(rep, tier):
                and any(a_['k'] in ('BinaryOperator', 'CXXOperatorCallExpr') and a_.get('op') == '=' and any(z['k'] == 'MemberExpr' and z.get('ref', {}).get('name') == 'atom' for z in sub(a_['c'][-2])) for a_ in gld.ancestors(y))]
     rep.check(not tostr_d, 'R16.15', 'getLuaAsData|number text', locstr(tostr_d[0]) if tostr_d else gld.where(), 'the text of a Lua number %s' % (
         'is written with round-trip precision' if not tostr_d else 'is toStr(double): 16 significant digits and the stream spellings inf / nan - 0.1+0.2 is received as 0.3, math.huge as nil, -math.huge and 0/0 raise error.execution in the receiver'))
+    nil_is_null(rep, fb, 'R16.16')
     # ---- R16.13 an array payload read back through <foreach>: the array attribute is a value expression
     rep.rule('R16.13', 'an array that arrived as payload is iterated like any other: LuaDataModel::setForeach evaluates the array attribute as an expression (as getLength does) and does not look its text up as the name of a global (array="_event.data.list" names no global: item and index were never assigned, the body ran over nothing)')
     sf = fb.fn('uscxml::LuaDataModel::setForeach')
@@ -273,12 +274,13 @@ def run(rep, tier):
     rep.sample({'getLuaAsData': {k: v[0] for k, v in table.items()}})
     missing = sorted(set(LUA_TAGS) - set(table))
     rep.check(not missing, 'R16.2', 'getLuaAsData|tags', l2d.where(), 'arms for Lua type tags %s; missing: %s' % (sorted(table), missing))
-    want = {'string': 'VERBATIM', 'number': 'INTERPRETED', 'boolean': 'INTERPRETED', 'nil': 'INTERPRETED', 'function': 'INTERPRETED'}
+    # nil is the empty Data (no atom, no type assigned): toJSON writes null, getDataAsLua returns nil for a Data without content (R16.16)
+    want = {'string': 'VERBATIM', 'number': 'INTERPRETED', 'boolean': 'INTERPRETED', 'nil': None, 'function': 'INTERPRETED'}
     for tag, ty in want.items():
         got = table.get(tag, (None, None, None))[0]
         rep.check(got == ty, 'R16.1', 'getLuaAsData|%s' % tag, locstr(table[tag][2]) if tag in table else l2d.where(), 'a Lua %s becomes a Data atom of type %s (expected %s)' % (tag, got, ty))
     # boolean / nil literals
-    for tag, lits in (('boolean', {'true', 'false'}), ('nil', {'nil'})):
+    for tag, lits in (('boolean', {'true', 'false'}), ('nil', set())):
         if tag in table:
             got = {s['str'] for s in sub(table[tag][1]) if s['k'] == 'StringLiteral' and 'str' in s}
             rep.check(got == lits, 'R16.1', 'getLuaAsData|%s literals' % tag, locstr(table[tag][2]), '%s is written as %s' % (tag, sorted(got)))
@@ -506,3 +508,20 @@ def run(rep, tier):
     expr_evaluated_at_execution(rep, fb)
     kind_before_size(rep, fb, d2l)
 
+
+
+def nil_is_null(rep, fb, rule='R16.16'):
+    """the Data written for Lua nil is read back as nil: no atom, or an atom that is a JSON literal (C16 R16.16, shared with C14 R14.12)"""
+    rep.rule(rule, 'no value stays no value across JSON: getLuaAsData represents nil by something Data::fromJSON reads back as a value the datamodel turns into nil - the empty Data (written as null) or a JSON literal - not by the bare word `nil`, which fromJSON reads as text (a resumed session found the string "nil" in every value-less <data>)')
+    gld = next((f_ for f_ in fb.funcs.values() if f_.q.endswith('getLuaAsData')), None)
+    if gld is None:
+        raise AnalysisBroken('getLuaAsData not found')
+    arms = [n for n in gld.walk() if n['k'] == 'IfStmt' and any(y.get('callee', {}).get('q', '').split('::')[-1] == 'isNil' for y in sub(n['c'][0])) and not any(
+        y.get('op') == '!' and y['k'] == 'UnaryOperator' for y in sub(n['c'][0]))]
+    rep.minimum(rule, len(arms), 1, 'nil arms in getLuaAsData')
+    for a in arms:
+        then = a['c'][1]
+        words = [y.get('str') for y in sub(then or {}) if y['k'] == 'StringLiteral' and any(
+            p_['k'] in ('CXXOperatorCallExpr', 'BinaryOperator') and p_.get('op') == '=' and any(z['k'] == 'MemberExpr' and z.get('ref', {}).get('name') == 'atom' for z in sub(p_['c'][-2])) for p_ in gld.ancestors(y))]
+        bad = [w for w in words if w not in ('null', 'true', 'false')]
+        rep.check(not bad, rule, 'getLuaAsData|nil', locstr(a), 'nil becomes %s' % ('the empty Data / a JSON literal' if not bad else 'the atom `%s`, which is no JSON literal: toJSON writes it bare, fromJSON reads it back as the string "%s"' % (bad[0], bad[0])))
